@@ -92,7 +92,8 @@ def flip(data, a, b, rng):
 TAMPERS = {
     "seq": "prefixbad", "roothash": "prefixbad", "iv": "prefixbad", "k": "prefixbad", "n": "prefixbad",
     "segsize": "prefixbad", "datalen": "prefixbad", "verbyte": "prefixbad", "k_zero": "prefixbad",
-    "off_signature": "prefixbad",
+    # (no tampering with the signature offset: RSA-PSS signatures are randomised and one whose first byte is zero
+    #  still verifies when read one byte late, so the outcome would not be a function of the layout)
     "pubkey": "softbad", "signature": "softbad",
     "block": "bodybad", "salt": "bodybad", "bht": "bodybad", "truncate_body": "bodybad",
     "shc_hash": "chainbad", "shc_index": "chainbad",
@@ -117,7 +118,7 @@ def tamper(data, fmt, kind, rng):
     if kind == "k_zero":
         a, b = f["k"]
         return data[:a] + b"\x00" + data[b:]
-    if kind in ("off_signature", "off_share_data"):
+    if kind == "off_share_data":
         a, b = f[kind]
         x = int.from_bytes(data[a:b], "big") + 1
         return data[:a] + x.to_bytes(b - a, "big") + data[b:]
@@ -599,7 +600,7 @@ class World:
 
 # --------------------------------------------------------------------------- scenario generators
 BODY_TAMPERS = ["block", "salt", "bht", "truncate_body"]
-PREFIX_TAMPERS = ["seq", "roothash", "iv", "k", "n", "segsize", "datalen", "verbyte", "k_zero", "off_signature"]
+PREFIX_TAMPERS = ["seq", "roothash", "iv", "k", "n", "segsize", "datalen", "verbyte", "k_zero"]
 SOFT_TAMPERS = ["pubkey", "signature"]
 
 
